@@ -289,6 +289,62 @@ pub fn apply<T: Item + Ord>(h: &mut Option<Dyn<T>>, op: &Op, out: &mut ObsBuf<T>
     }
 }
 
+type Job = Box<dyn FnOnce() + Send + 'static>;
+
+struct Helper {
+    tx: std::sync::mpsc::Sender<Job>,
+    done: std::sync::mpsc::Receiver<()>,
+}
+
+thread_local! {
+    static HELPER: std::cell::RefCell<Option<Helper>> = const { std::cell::RefCell::new(None) };
+}
+
+/// Runs `f` on this worker's helper OS thread and waits for it (strict hand-off: the caller
+/// is blocked for the whole time, so exactly one of the two threads is runnable and the
+/// execution replays exactly). One persistent helper per worker: spawning a thread per
+/// migrated operation made sixteen workers fight over the process's mmap lock.
+fn on_helper<'a, R: Send + 'a>(f: impl FnOnce() -> R + Send + 'a) -> R {
+    let mut slot: Option<R> = None;
+    {
+        struct SendPtr<T>(*mut T);
+        unsafe impl<T> Send for SendPtr<T> {}
+        let slot_ptr = SendPtr(&mut slot as *mut Option<R>);
+        let job: Box<dyn FnOnce() + Send + 'a> = Box::new(move || {
+            let p = slot_ptr;
+            // Safety: see below; the slot outlives the job and nobody else touches it meanwhile
+            unsafe { *p.0 = Some(f()) };
+        });
+        // Safety: the job is executed and finished before this function returns (we block on
+        // `done`), so everything it borrows outlives it; only the lifetime is erased.
+        let job: Job = unsafe { std::mem::transmute(job) };
+        HELPER.with(|h| {
+            let mut h = h.borrow_mut();
+            if h.is_none() {
+                let (tx, rx) = std::sync::mpsc::channel::<Job>();
+                let (dtx, drx) = std::sync::mpsc::channel::<()>();
+                std::thread::Builder::new()
+                    .name("migrate-helper".into())
+                    .stack_size(1 << 20)
+                    .spawn(move || {
+                        for job in rx {
+                            job();
+                            if dtx.send(()).is_err() {
+                                break;
+                            }
+                        }
+                    })
+                    .expect("spawn helper");
+                *h = Some(Helper { tx, done: drx });
+            }
+            let hh = h.as_ref().unwrap();
+            hh.tx.send(job).expect("helper alive");
+            hh.done.recv().expect("helper finished the job");
+        });
+    }
+    slot.expect("helper produced a result")
+}
+
 #[derive(Clone, Debug, PartialEq, Eq)]
 pub enum Outcome {
     Ok,
@@ -300,16 +356,9 @@ fn guarded<T: Item + Ord>(h: &mut Option<Dyn<T>>, op: &Op, migrate: bool) -> (Ob
     let mut out = ObsBuf::new();
     let r = if migrate {
         // the handle travels to a helper thread and back; strict hand-off, never two runnable
-        std::thread::scope(|s| {
-            let out = &mut out;
-            let h = &mut *h;
-            std::thread::Builder::new()
-                .stack_size(1 << 20)
-                .spawn_scoped(s, move || catch_unwind(AssertUnwindSafe(|| apply(h, op, out))))
-                .expect("spawn")
-                .join()
-                .expect("helper thread join")
-        })
+        let out = &mut out;
+        let h = &mut *h;
+        on_helper(move || catch_unwind(AssertUnwindSafe(|| apply(h, op, out))))
     } else {
         catch_unwind(AssertUnwindSafe(|| apply(h, op, &mut out)))
     };
